@@ -3,6 +3,7 @@
   (first part: capacity; the session theorems follow below)
 -/
 import J1939.Model.Dll22
+import J1939.Props.C03
 import J1939.Lemmas.Trace22
 import J1939.Lemmas.Bits
 import J1939.Lemmas.PyDict
@@ -232,5 +233,253 @@ theorem c02_reception_exact (cfg : Cfg) (data : List Nat) (hpos : 0 < data.lengt
     (by rw [h1, h2]) hsrc
   refine ⟨?_, e2, e3, by rw [e4, a2]⟩
   rw [deliveries_append, a1, e1, h4, h1]; rfl
+
+/-! ## Broadcast (FD BAM) from end to end -/
+
+/-- successive background passes over ONE broadcast record; frames and the record left -/
+def bamRun (cfg : Cfg) : List Nat → Snd → List Out × Option Snd × Release
+  | [], b => ([], some b, .none)
+  | t :: ts, b =>
+    let r := tickSndOne cfg t b
+    match r.1 with
+    | none => (r.2.1, none, r.2.2.2.2)
+    | some b' => let q := bamRun cfg ts b'; (r.2.1 ++ q.1, q.2)
+
+/-- every pass of the list finds the record due -/
+def Due (cfg : Cfg) : Nat → List Nat → Prop
+  | _, [] => True
+  | d, t :: ts => d ≠ 0 ∧ d ≤ t ∧ Due cfg (t + cfg.bamInterval) ts
+
+/-- one due pass over a broadcast record that still has segments to send -/
+theorem tickSndOne_bam (cfg : Cfg) (t : Nat) (b : Snd) (msg : List Nat) (j : Nat) (hs : b.state = S_SENDING_BAM)
+    (hd0 : b.deadline ≠ 0) (hdt : b.deadline ≤ t) (hdata : b.data = chunks60 msg) (hnext : b.next = (j : Int))
+    (hj : j < Tp22.num_segments msg.length) :
+    tickSndOne cfg t b =
+      (some (if (j : Int) + 1 < (b.numSegments : Int) then { b with next := (j : Int) + 1, deadline := t + cfg.bamInterval }
+             else { b with next := (j : Int) + 1, state := S_SENDING_EOM_STATUS, deadline := t + cfg.bamInterval }),
+       [.tx (Tp22.dt Const.LUT_FD_DLC b.src b.dest b.session (j + 1) ((msg.drop (60 * j)).take 60) 0)], none,
+       some (t + cfg.bamInterval), .none) := by
+  have e1 : (b.deadline != 0) = true := by simpa using hd0
+  have e2 : ¬ b.deadline > t := by omega
+  have n15 : (S_SENDING_BAM == S_WAITING_CTS) = false := by decide
+  have n25 : (S_SENDING_BAM == S_SENDING_RTS_CTS) = false := by decide
+  have n35 : (S_SENDING_BAM == S_WAITING_EOM_ACK) = false := by decide
+  have n45 : (S_SENDING_BAM == S_EOM_ACK_RECEIVED) = false := by decide
+  have hidx : pyIndex b.data b.next = some ((msg.drop (60 * j)).take 60) := by
+    rw [hdata, hnext]
+    unfold pyIndex
+    have : (0 : Int) ≤ (j : Int) := by omega
+    simp only [this, if_true, Int.toNat_natCast]
+    exact c02_chunks_get msg j hj
+  have htn : ((j : Int) + 1).toNat = j + 1 := by omega
+  rw [hnext] at hidx
+  unfold tickSndOne
+  simp only [e1, if_true, e2, if_false, hs, n15, n25, n35, n45, Bool.false_eq_true, beq_self_eq_true, hnext, hidx, htn]
+  split <;> rfl
+/-- the due pass over a record in SENDING_EOM_STATUS: the end-of-message status goes out, the record is deleted and its
+    number returns to the broadcast pool -/
+theorem tickSndOne_eoms (cfg : Cfg) (t : Nat) (b : Snd) (hs : b.state = S_SENDING_EOM_STATUS) (hd0 : b.deadline ≠ 0) (hdt : b.deadline ≤ t) :
+    tickSndOne cfg t b =
+      (none, [.tx (Tp22.eom_status b.src b.dest b.session b.messageSize b.numSegments b.pgn 0 0)], none, none, .bam b.session) := by
+  have e1 : (b.deadline != 0) = true := by simpa using hd0
+  have e2 : ¬ b.deadline > t := by omega
+  have n16 : (S_SENDING_EOM_STATUS == S_WAITING_CTS) = false := by decide
+  have n26 : (S_SENDING_EOM_STATUS == S_SENDING_RTS_CTS) = false := by decide
+  have n36 : (S_SENDING_EOM_STATUS == S_WAITING_EOM_ACK) = false := by decide
+  have n46 : (S_SENDING_EOM_STATUS == S_EOM_ACK_RECEIVED) = false := by decide
+  have n56 : (S_SENDING_EOM_STATUS == S_SENDING_BAM) = false := by decide
+  unfold tickSndOne
+  simp only [e1, if_true, e2, if_false, hs, n16, n26, n36, n46, n56, Bool.false_eq_true, beq_self_eq_true]
+
+/-- ORIGINATOR, broadcast (FD): m + 1 due passes over a record with m segments left put exactly the FD.TP.DT frames of
+    those segments on the bus — one per pass, in order, the 60-byte chunks of the message — then the end-of-message
+    status; the last pass deletes the record and returns its number to the broadcast pool -/
+theorem c02_bam_originator_frames (cfg : Cfg) (msg : List Nat) (m : Nat) : ∀ (times : List Nat) (b : Snd) (j : Nat),
+    times.length = m + 1 → 0 < m → b.state = S_SENDING_BAM → b.data = chunks60 msg → b.next = (j : Int) →
+    b.numSegments = Tp22.num_segments msg.length → j + m = Tp22.num_segments msg.length → Due cfg b.deadline times →
+    bamRun cfg times b =
+      ((List.range' j m).map (fun k => Out.tx (Tp22.dt Const.LUT_FD_DLC b.src b.dest b.session (k + 1) ((msg.drop (60 * k)).take 60) 0)) ++
+        [.tx (Tp22.eom_status b.src b.dest b.session b.messageSize b.numSegments b.pgn 0 0)], none, .bam b.session) := by
+  induction m with
+  | zero => intro times b j _ h; omega
+  | succ m ih =>
+    intro times b j ht _ hs hdata hnext hn hjm hdue
+    obtain ⟨t, times, rfl⟩ : ∃ t ts, times = t :: ts := by
+      cases times with
+      | nil => simp at ht
+      | cons t ts => exact ⟨t, ts, rfl⟩
+    simp only [List.length_cons, Nat.add_right_cancel_iff] at ht
+    obtain ⟨hd0, hdt, hrest⟩ := hdue
+    have h1 := tickSndOne_bam cfg t b msg j hs hd0 hdt hdata hnext (by omega)
+    by_cases hlast : m = 0
+    · subst hlast
+      have hc : ¬ ((j : Int) + 1 < (b.numSegments : Int)) := by rw [hn]; omega
+      simp only [hc, if_false] at h1
+      obtain ⟨t', rfl⟩ : ∃ t', times = [t'] := by
+        match times, ht with
+        | [t'], _ => exact ⟨t', rfl⟩
+      obtain ⟨hd0', hdt', _⟩ := hrest
+      have h2 := tickSndOne_eoms cfg t' { b with next := (j : Int) + 1, state := S_SENDING_EOM_STATUS, deadline := t + cfg.bamInterval }
+        rfl hd0' hdt'
+      simp only [bamRun, h1, h2, List.range'_one, List.map_cons, List.map_nil, List.append_nil, List.singleton_append, Nat.zero_add]
+    · have hc : (j : Int) + 1 < (b.numSegments : Int) := by rw [hn]; omega
+      simp only [hc, if_true] at h1
+      have := ih times { b with next := (j : Int) + 1, deadline := t + cfg.bamInterval } (j + 1) ht (by omega) hs hdata
+        (by simp only; omega) hn (by omega) hrest
+      dsimp only at this
+      simp only [bamRun, h1, this, List.range'_succ, List.map_cons, List.cons_append, List.nil_append]
+/-- the PGN a broadcast announces: PS cleared for a PDU1 PGN -/
+def bamPgn (dp pf ps : Nat) : Nat :=
+  if PGN.is_pdu1_format (PGN.ofFields dp pf ps) then PGN.value { PGN.ofFields dp pf ps with pdu_specific := 0 }
+  else PGN.value (PGN.ofFields dp pf ps)
+
+theorem bamPgn_lt (dp pf ps : Nat) : bamPgn dp pf ps < 16777216 := by
+  unfold bamPgn
+  have w := Lemmas.pgn_ofFields_wf dp pf ps
+  have w0 : Lemmas.PGN.WF { PGN.ofFields dp pf ps with pdu_specific := 0 } := by
+    obtain ⟨a, b, _⟩ := w
+    exact ⟨a, b, by simp⟩
+  split
+  · rw [Lemmas.pgn_value_arith _ w0]; obtain ⟨a, b, c⟩ := w0; simp only at a b c ⊢; omega
+  · rw [Lemmas.pgn_value_arith _ w]; obtain ⟨a, b, c⟩ := w; omega
+
+/-- the send record of an FD broadcast that got session number `i` -/
+def bamRec (cfg : Cfg) (now dp pf ps prio sa i : Nat) (msg : List Nat) : Snd :=
+  { pgn := bamPgn dp pf ps, priority := prio, session := i, messageSize := msg.length, numSegments := Tp22.num_segments msg.length,
+    data := chunks60 msg, state := S_SENDING_BAM, deadline := now + cfg.bamInterval, src := sa, dest := Const.Addr.GLOBAL,
+    next := 0, waitOn := none }
+
+/-- an accepted broadcast of more than 60 bytes, exactly -/
+theorem sendPgn_bam (cfg : Cfg) (s : St) (now dp pf ps prio sa : Nat) (msg : List Nat) (tl ff : Nat) (hl : 60 < msg.length)
+    (hb : (ps == Const.Addr.GLOBAL || PGN.is_pdu2_format (PGN.ofFields 0 pf ps)) = true)
+    (hacc : (sendPgn cfg s now dp pf ps prio sa msg tl ff).2 = true) :
+    ∃ i pool, poolGet s.bamPool = some (i, pool) ∧
+      (sendPgn cfg s now dp pf ps prio sa msg tl ff).1 =
+        { st := { s with bamPool := pool, snd := s.snd.set (Tp22.buffer_hash i sa Const.Addr.GLOBAL) (bamRec cfg now dp pf ps prio sa i msg) },
+          outs := [.tx (Tp22.bam prio sa i (bamPgn dp pf ps) msg.length (Tp22.num_segments msg.length)), .wake] } := by
+  have hl' : ¬ msg.length ≤ Const.DL22.TP := by
+    have : Const.DL22.TP = 60 := rfl
+    omega
+  unfold sendPgn at hacc ⊢
+  simp only [hl', if_false, hb, if_true] at hacc ⊢
+  cases hg : poolGet s.bamPool with
+  | none => simp [hg] at hacc
+  | some r =>
+    obtain ⟨i, pool⟩ := r
+    exact ⟨i, pool, rfl, by simp [bamRec, bamPgn]⟩
+/-- RESPONDER, the broadcast announcement on a free (session, source) slot: a receive record for the announced size, segment
+    count and PGN, no data yet; nothing delivered, nothing raised -/
+theorem rx_bam (cfg : Cfg) (s : St) (now : Nat) (mid : MessageId) (prio i pgnv size n : Nat)
+    (hsrc : mid.source_address ≠ Const.Addr.GLOBAL) (hi : i < 16) (hs : size < 16777216) (hn : n < 16777216) (hp : pgnv < 16777216)
+    (hfree : s.rcv.contains (Tp22.buffer_hash i mid.source_address Const.Addr.GLOBAL) = false) :
+    let r := processCm cfg s now mid Const.Addr.GLOBAL (Tp22.bam prio mid.source_address i pgnv size n).data
+    r.err = none ∧ r.outs = [.wake] ∧ r.st.snd = s.snd ∧
+    ∃ rc, r.st.rcv.get? (Tp22.buffer_hash i mid.source_address Const.Addr.GLOBAL) = some rc ∧ rc.messageSize = size ∧
+      rc.numSegments = n ∧ rc.nextPacket = 1 ∧ rc.data = [] ∧ rc.pgn = pgnv := by
+  intro r
+  have hd : (Tp22.bam prio mid.source_address i pgnv size n).data = Ref.fdCm 4 i size n 255 0 pgnv :=
+    (J1939.Props.C03.c03_22_builders mid.source_address 0 prio i pgnv size n 0 0 0 0 0 0).2.2.2.2.1
+  obtain ⟨d1, d2, d3, d4, _, d6, d7⟩ := J1939.Props.C03.c03_22_decode_cm 4 i size n 255 0 pgnv (by omega) hi hs hn (by omega) hp
+  have hsrc' : (mid.source_address == Const.Addr.GLOBAL) = false := by simpa using hsrc
+  simp only [r]
+  rw [hd]
+  generalize Ref.fdCm 4 i size n 255 0 pgnv = data at *
+  have hl : ¬ data.length < 12 := by omega
+  have c1 : (4 == Const.CM22.RTS) = false := by decide
+  have c2 : (4 == Const.CM22.CTS) = false := by decide
+  have c3 : (4 == Const.CM22.EOM_STATUS) = false := by decide
+  have c4 : (4 == Const.CM22.EOM_ACK) = false := by decide
+  have c5 : (4 == Const.CM22.BAM) = true := by decide
+  unfold processCm
+  simp only [hl, if_false, hsrc', d1, d2, d3, d4, d6, c1, c2, c3, c4, c5, Bool.false_eq_true, if_true, hfree]
+  exact ⟨trivial, trivial, trivial, _, PyDict.get?_set_self _ _ _, rfl, rfl, rfl, rfl, rfl⟩
+/-- the frames among the outputs -/
+def txFrames (o : List Out) : List Frame :=
+  o.filterMap (fun x => match x with | .tx f => some f | _ => none)
+
+theorem txFrames_map {α : Type} (l : List α) (g : α → Frame) : txFrames (l.map (fun k => Out.tx (g k))) = l.map g := by
+  induction l with
+  | nil => rfl
+  | cons a l ih => simp only [List.map_cons, txFrames, List.filterMap_cons] at ih ⊢; rw [ih]
+
+theorem txFrames_append (a b : List Out) : txFrames (a ++ b) = txFrames a ++ txFrames b := by
+  simp [txFrames, List.filterMap_append]
+
+/-- FD BROADCAST FROM END TO END (J1939-22): an accepted broadcast of more than 60 bytes takes a session number `i` from the
+    broadcast pool; served by n + 1 due passes (n = ⌈len/60⌉) it puts exactly the announcement, the n FD.TP.DT frames
+    in order and the end-of-message status on the bus, the record is deleted and number `i` returned to the pool.  ANY
+    node without a stale record for (i, source) that handles these frames — at arbitrary times, under its own
+    configuration — delivers the message EXACTLY ONCE: announced PGN, the originator's address, destination 255, the
+    byte-identical payload; and keeps no receive record -/
+theorem c02_bam_end_to_end (cfgO cfgR : Cfg) (sO sR : St) (midB mid : MessageId) (t0 dp pf ps prio tl ff : Nat) (msg : List Nat)
+    (hl : 60 < msg.length) (hmax : msg.length < 16777216)
+    (hsB : midB.source_address = mid.source_address) (hne : mid.source_address ≠ Const.Addr.GLOBAL)
+    (hb : (ps == Const.Addr.GLOBAL || PGN.is_pdu2_format (PGN.ofFields 0 pf ps)) = true)
+    (hacc : (sendPgn cfgO sO t0 dp pf ps prio mid.source_address msg tl ff).2 = true)
+    (hwf : sO.bamPool.length = 4)
+    (passes : List Nat) (hpl : passes.length = Tp22.num_segments msg.length + 1) (hdue : Due cfgO (t0 + cfgO.bamInterval) passes)
+    (hfree : ∀ i, sR.rcv.contains (Tp22.buffer_hash i mid.source_address Const.Addr.GLOBAL) = false)
+    (tB tE : Nat) (rxTimes : List Nat) (hrl : rxTimes.length = Tp22.num_segments msg.length) :
+    ∃ i, i < 4 ∧
+      let r0 := (sendPgn cfgO sO t0 dp pf ps prio mid.source_address msg tl ff).1
+      let b := bamRec cfgO t0 dp pf ps prio mid.source_address i msg
+      let run := bamRun cfgO passes b
+      let bamF := Tp22.bam prio mid.source_address i (bamPgn dp pf ps) msg.length (Tp22.num_segments msg.length)
+      let dtFs := (List.range' 0 (Tp22.num_segments msg.length)).map
+        (fun k => Tp22.dt Const.LUT_FD_DLC mid.source_address Const.Addr.GLOBAL i (k + 1) ((msg.drop (60 * k)).take 60) 0)
+      let eomF := Tp22.eom_status mid.source_address Const.Addr.GLOBAL i msg.length (Tp22.num_segments msg.length) (bamPgn dp pf ps) 0 0
+      r0.st.snd.get? (Tp22.buffer_hash i mid.source_address Const.Addr.GLOBAL) = some b ∧
+      txFrames r0.outs ++ txFrames run.1 = bamF :: (dtFs ++ [eomF]) ∧ run.2.1 = none ∧ run.2.2 = .bam i ∧
+      let a1 := processCm cfgR sR tB midB Const.Addr.GLOBAL bamF.data
+      let a2 := feedDt a1.st mid Const.Addr.GLOBAL (rxTimes.zip (dtFs.map (·.data)))
+      let a3 := processCm cfgR a2.1 tE mid Const.Addr.GLOBAL eomF.data
+      deliveries (a1.outs ++ a2.2 ++ a3.outs) = [(mid.priority, bamPgn dp pf ps, mid.source_address, Const.Addr.GLOBAL, msg)] ∧
+      a3.err = none ∧ a3.st.rcv.get? (Tp22.buffer_hash i mid.source_address Const.Addr.GLOBAL) = none := by
+  obtain ⟨i, pool, hg, hr0⟩ := sendPgn_bam cfgO sO t0 dp pf ps prio mid.source_address msg tl ff hl hb hacc
+  obtain ⟨g1, _, _⟩ := poolGet_some _ _ _ hg
+  have hi : i < 4 := by
+    rcases Nat.lt_or_ge i sO.bamPool.length with hh | hh
+    · omega
+    · rw [List.getElem?_eq_none hh] at g1; cases g1
+  refine ⟨i, hi, ?_⟩
+  intro r0 b run bamF dtFs eomF
+  have hn : 0 < Tp22.num_segments msg.length := by
+    have := (num_segments_spec msg.length).1; omega
+  have hn24 : Tp22.num_segments msg.length < 16777216 := by
+    have := (num_segments_spec msg.length).2
+    omega
+  have hrun : run = _ := c02_bam_originator_frames cfgO msg (Tp22.num_segments msg.length) passes b 0 hpl hn rfl rfl rfl rfl (by omega) hdue
+  refine ⟨by simp only [r0, hr0]; exact PyDict.get?_set_self _ _ _, ?_, by rw [hrun], by rw [hrun]; rfl, ?_⟩
+  · simp only [r0, hr0, hrun, txFrames_append]
+    rw [txFrames_map]
+    simp [txFrames, bamF, dtFs, eomF, b, bamRec]
+  · intro a1 a2 a3
+    obtain ⟨e1, e2, e3, rc, e4, e5, e6, e7, e8, e9⟩ := rx_bam cfgR sR tB midB prio i (bamPgn dp pf ps) msg.length
+      (Tp22.num_segments msg.length) (by rw [hsB]; exact hne) (by omega) hmax hn24 (bamPgn_lt dp pf ps) (by rw [hsB]; exact hfree i)
+    rw [hsB] at e4
+    -- the end-of-message status decodes to the announced fields
+    have heom : eomF.data = Ref.fdCm 2 i msg.length (Tp22.num_segments msg.length) 0 0 (bamPgn dp pf ps) :=
+      (J1939.Props.C03.c03_22_builders mid.source_address Const.Addr.GLOBAL 0 i (bamPgn dp pf ps) msg.length
+        (Tp22.num_segments msg.length) 0 0 0 0 0 0).2.2.1
+    obtain ⟨d1, d2, d3, d4, _, _, d7⟩ := J1939.Props.C03.c03_22_decode_cm 2 i msg.length (Tp22.num_segments msg.length) 0 0
+      (bamPgn dp pf ps) (by omega) (by omega) hmax hn24 (by omega) (bamPgn_lt dp pf ps)
+    have hframes : ∀ k (h : k < (rxTimes.zip (dtFs.map (·.data))).length),
+        SegFrame msg i k ((rxTimes.zip (dtFs.map (·.data)))[k]).2 := by
+      intro k hk
+      have hk' : k < Tp22.num_segments msg.length := by
+        simp only [List.length_zip, List.length_map, dtFs, List.length_range'] at hk; omega
+      simp only [List.getElem_zip, dtFs, List.getElem_map, List.getElem_range', Nat.zero_add, Nat.one_mul]
+      exact c02_built_frame_is_segframe msg mid.source_address Const.Addr.GLOBAL i k (by omega) hk' (by simp only [Nat.reducePow]; omega)
+    have hrx := c02_reception_exact cfgR msg (by omega) mid Const.Addr.GLOBAL i (rxTimes.zip (dtFs.map (·.data)))
+      (by simp only [List.length_zip, List.length_map, dtFs, List.length_range']; omega) hframes a1.st rc e4 e5 e7 e8
+      (fun h => absurd rfl h) tE eomF.data (by rw [heom, d7]; omega) (by rw [heom]; exact d1) (by rw [heom]; exact d2)
+      (by rw [heom]; exact d3) (by rw [heom, e6]; exact d4) hne
+    simp only at hrx
+    obtain ⟨x1, x2, x3, _⟩ := hrx
+    refine ⟨?_, x2, x3⟩
+    have ha1 : a1.outs = [.wake] := e2
+    rw [List.append_assoc, deliveries_append, x1, e9, ha1]
+    simp [deliveries]
+
 
 end J1939.Props.C02
